@@ -217,7 +217,9 @@ func (x *Exec) mapInit(st *State, ref *Term, t types.Type) {
 	c := x.c
 	mt := t.Underlying().(*types.Map)
 	k, h := x.mapPresent(st, mt)
-	st.heap[k] = c.Store(h, ref, x.zeroLeaf(ArrSort(SInt, SBool)))
+	empty := x.zeroLeaf(ArrSort(SInt, SBool))
+	st.heap[k] = c.Store(h, ref, empty)
+	x.hyps = append(x.hyps, c.Eq(c.App("map_card", SInt, empty), c.Int(0)))
 }
 
 func (x *Exec) mapLen(st *State, m *Term, mt *types.Map) *Term {
